@@ -17,6 +17,8 @@ NUM = ("int", "bool", "real")
 int_str = z3.Function("int_str", smt.Int, smt.S)
 str_lower = z3.Function("str_lower", smt.S, smt.S)
 str_strip = z3.Function("str_strip", smt.S, smt.S)
+str_lstrip1 = z3.Function("str_lstrip1", smt.S, smt.S, smt.S)  # s.lstrip(ch)
+str_replace_all = z3.Function("str_replace_all", smt.S, smt.S, smt.S, smt.S)
 latin1_enc = z3.Function("latin1_enc", smt.S, smt.Sq)
 latin1_ok = z3.Function("latin1_ok", smt.S, smt.Bool)
 utf8_encodable = z3.Function("utf8_encodable", smt.S, smt.Bool)
